@@ -237,9 +237,11 @@ struct counters_t
 } C;
 
 const double kEps0 = epsilon0<scalar_t>();
+bool         g_quiet = false; // mirror runs that only look for the capacity guard: no B lines
 
 void print_state(const std::string& sid, const bundle_t& b)
 {
+    if (g_quiet) return;
     std::string S;
     for (tensor_size_t i = 0; i < b.m_size; ++i)
     {
@@ -252,11 +254,13 @@ void print_state(const std::string& sid, const bundle_t& b)
 
 void print_solve(const std::string& sid, const bundle_t& b, double miu)
 {
+    if (g_quiet) return;
     std::printf("B %s SOLVE miu=%s | %s\n", sid.c_str(), vh::hexf(miu).c_str(), hv(b.m_alphas.data(), b.m_size).c_str());
 }
 
 void print_conv(const std::string& sid, const bundle_t& b, double eps)
 {
+    if (g_quiet) return;
     const double tol = eps * std::sqrt(static_cast<scalar_t>(b.m_x.size()));
     const bool   ec  = b.econverged(eps);
     const bool   sc  = b.sconverged(eps);
@@ -368,8 +372,9 @@ bool apply_append(const std::string& sid, bundle_t& b, bool serious, const vecto
         ++C.guards;
         return false;
     }
-    std::printf("B %s APP serious=%d keep=%s | %s | %s | %s\n", sid.c_str(), serious ? 1 : 0, keep.empty() ? "-" : keep.c_str(),
-                hv(y).c_str(), hv(gy).c_str(), vh::hexf(fy).c_str());
+    if (!g_quiet)
+        std::printf("B %s APP serious=%d keep=%s | %s | %s | %s\n", sid.c_str(), serious ? 1 : 0, keep.empty() ? "-" : keep.c_str(),
+                    hv(y).c_str(), hv(gy).c_str(), vh::hexf(fy).c_str());
     if (serious)
         b.moveto(y, gy, fy);
     else
@@ -382,6 +387,7 @@ bool apply_append(const std::string& sid, bundle_t& b, bool serious, const vecto
 
 void print_new(const std::string& sid, const bundle_t& b, int max_size, const solver_state_t& state)
 {
+    if (g_quiet) return;
     std::printf("B %s NEW n=%d max=%d cap=%d cape=%d caps=%d eps0=%s | %s | %s | %s\n", sid.c_str(), static_cast<int>(b.dims()), max_size,
                 static_cast<int>(b.m_alphas.size()), static_cast<int>(b.m_bundleE.size()), static_cast<int>(b.m_bundleS.size<0>()),
                 vh::hexf(kEps0).c_str(), hv(state.x()).c_str(), hv(state.gx()).c_str(), vh::hexf(state.fx()).c_str());
@@ -569,15 +575,130 @@ std::string config_str(const config_t& c)
     return buf;
 }
 
+// Part B: RQB / FPBA loops mirrored on the public bundle_t / csearch_t / proximity_t with the bundle dumped at every
+// step, and compared with the real solver on the same problem (same bits expected: same library code, same inputs)
+template <class tsequence>
+solver_state_t mirror_loop(const std::string& sid, const std::string& sname, const sharp_function_t& function, const vector_t& x0,
+                           const solver_t& solver, const config_t& c, vh::rng_t& r, bool& guarded)
+{
+    const auto prefix    = std::string("solver::") + sname;
+    const auto max_evals = static_cast<tensor_size_t>(c.max_evals);
+    const auto epsilon   = c.eps;
+    const auto logger    = make_null_logger();
+    const bool is_rqb    = sname == "rqb";
+
+    auto state     = solver_state_t{function, x0};
+    auto bundle    = bundle_t::make(state, solver, prefix);
+    auto csearch   = csearch_t::make(function, solver, prefix);
+    auto proximity = proximity_t::make(state, solver, prefix);
+    print_new(sid, bundle, c.max_size, state);
+
+    auto Gn  = state.gx();
+    auto Gn1 = state.gx();
+    auto gx       = vector_t{x0.size()};
+    auto sequence = tsequence{state};
+    struct probe_t final : public solver_t
+    {
+        probe_t() : solver_t("probe") {}
+        using solver_t::done;
+        rsolver_t      clone() const override { return std::make_unique<probe_t>(*this); }
+        solver_state_t do_minimize(const function_t&, const vector_t&, const logger_t&) const override { return {}; }
+    } probe;
+
+    guarded = false;
+    while (function.fcalls() + function.gcalls() < max_evals)
+    {
+        const auto& [t, status, y, gy, fy] = csearch.search(bundle, proximity.miu(), max_evals, epsilon, logger);
+        // when the budget ran out inside the curve search t may have been changed after the last solve: miu unknown
+        print_solve(sid, bundle, function.fcalls() + function.gcalls() < max_evals ? proximity.miu() / t : std::nan(""));
+        print_conv(sid, bundle, epsilon);
+        oracle_certificate(sid, bundle, function, epsilon);
+
+        const auto iter_ok   = status != csearch_status::failed;
+        const auto converged = status == csearch_status::converged;
+        if (!g_quiet) std::printf("CS %s %d %d %d\n", is_rqb ? "rqb" : "fpba", static_cast<int>(status), iter_ok ? 1 : 0, converged ? 1 : 0);
+        if (probe.done(state, iter_ok, converged, logger)) break;
+
+        if (status == csearch_status::descent_step || status == csearch_status::cutting_plane_step)
+        {
+            if (is_rqb)
+            {
+                if (status == csearch_status::descent_step)
+                {
+                    Gn1 = bundle.smeared_s();
+                    proximity.update(t, bundle.x(), y, bundle.gx(), gy, Gn, Gn1);
+                    Gn = Gn1;
+                }
+                else
+                {
+                    Gn = bundle.smeared_s();
+                }
+                if (!apply_append(sid, bundle, true, y, gy, fy)) { guarded = true; break; }
+                state.update(y, gy, fy);
+            }
+            else
+            {
+                if (status == csearch_status::descent_step) proximity.update(t, bundle.x(), y, bundle.gx(), gy);
+                state.update_if_better(y, gy, fy);
+                const auto& x  = sequence.update(y);
+                const auto  fx = function.vgrad(x, gx);
+                if (!apply_append(sid, bundle, true, x, gx, fx)) { guarded = true; break; }
+                if (!state.update_if_better(x, gx, fx)) sequence.reset();
+            }
+        }
+        else if (status == csearch_status::null_step)
+        {
+            if (!apply_append(sid, bundle, false, y, gy, fy)) { guarded = true; break; }
+        }
+        ++C.mirror_ops;
+        if (C.mirror_ops % 4 == 0) oracle_rows(sid, bundle, function, make_probes(r, function, bundle, nullptr));
+    }
+    state.update_calls();
+    return state;
+}
+
+struct mirror_result_t
+{
+    solver_state_t st;
+    bool           guarded{false};
+};
+
+mirror_result_t do_mirror(const std::string& sid, const std::string& sname, problem_t& p, const config_t& c, const solver_t& solver, vh::rng_t& r,
+                          bool quiet)
+{
+    mirror_result_t m;
+    verif::g_event_hook.store(nullptr); // the probe's done() is not the solver's
+    p.f->clear_statistics();
+    g_quiet = quiet;
+    if (sname == "fpba2") m.st = mirror_loop<nesterov_sequence2_t>(sid, sname, *p.f, p.x0, solver, c, r, m.guarded);
+    else m.st = mirror_loop<nesterov_sequence1_t>(sid, sname, *p.f, p.x0, solver, c, r, m.guarded);
+    g_quiet = false;
+    verif::g_event_hook.store(&event_hook);
+    ++C.mirrors;
+    return m;
+}
+
+void compare_mirror(const std::string& sid, const std::string& sname, const solver_state_t& ref, const solver_state_t& mir)
+{
+    const bool same = ref.status() == mir.status() && ref.fx() == mir.fx() && ref.fcalls() == mir.fcalls() && hv(ref.x()) == hv(mir.x());
+    if (!same)
+    {
+        std::printf("MIRROR-DIFF %s solver=%s real: status=%d fx=%s calls=%d x=%s | mirror: status=%d fx=%s calls=%d x=%s\n", sid.c_str(), sname.c_str(),
+                    static_cast<int>(ref.status()), vh::hexf(ref.fx()).c_str(), static_cast<int>(ref.fcalls()), hv(ref.x()).c_str(),
+                    static_cast<int>(mir.status()), vh::hexf(mir.fx()).c_str(), static_cast<int>(mir.fcalls()), hv(mir.x()).c_str());
+    }
+}
+
 // Part C: the real solvers with the property's own oracle
-void solver_run(uint64_t case_seed, bool small, const char* force_solver = nullptr)
+void solver_run(uint64_t case_seed, bool small, bool dump)
 {
     vh::rng_t         r(case_seed);
-    const std::string id = "R" + std::to_string(case_seed);
+    const std::string id = (dump ? "M" : "R") + std::to_string(case_seed);
     static const char* solvers[] = {"rqb", "fpba1", "fpba2", "ellipsoid"};
-    const std::string  sname = force_solver ? force_solver : solvers[r.range(0, 3)];
+    const std::string  sname = solvers[r.range(0, dump ? 2 : 3)];
     auto               p     = make_problem(r);
     auto               c     = draw_config(r, sname, small);
+    if (dump) c.max_evals = std::min(c.max_evals, 3000); // keeps the dump small
     const double       d0    = norm2(p.f->m_xs, p.x0);
     if (sname == "ellipsoid")
     {
@@ -585,8 +706,25 @@ void solver_run(uint64_t case_seed, bool small, const char* force_solver = nullp
         if (p.n <= 6 && r.range(0, 1) == 0) c.max_evals = 20000;
     }
     auto solver = make_solver(c);
+    std::printf("START %s solver=%s kind=%s n=%d %s\n", id.c_str(), sname.c_str(), kind_name(p.kind, p.mu), p.n, config_str(c).c_str());
+    mirror_result_t mir;
+    if (sname != "ellipsoid")
+    {
+        // the mirrored loop first: it stops before an operation that would leave size() == capacity() (after which the
+        // library writes behind its buffers); the real solver is then not run on this case
+        mir = do_mirror(id, sname, p, c, *solver, r, !dump);
+        if (dump) std::printf("B %s END\n", id.c_str());
+        if (mir.guarded)
+        {
+            std::printf("SKIP %s solver=%s n=%d %s reason=bundle-size-reaches-capacity\n", id.c_str(), sname.c_str(), p.n, config_str(c).c_str());
+            C.hist["run_skipped_capacity_guard"]++;
+            return;
+        }
+    }
     g_events.clear();
+    p.f->m_evals = 0;
     const auto st = solver->minimize(*p.f, p.x0, make_null_logger());
+    if (sname != "ellipsoid") compare_mirror(id, sname, st, mir.st);
     const double gap  = st.fx() - p.f->fstar();
     const double dist = norm2(p.f->m_xs, st.x());
     const bool   conv = st.status() == solver_status::converged;
@@ -649,136 +787,6 @@ void solver_run(uint64_t case_seed, bool small, const char* force_solver = nullp
     }
 }
 
-// Part B: RQB / FPBA loops mirrored on the public bundle_t / csearch_t / proximity_t with the bundle dumped at every
-// step, and compared with the real solver on the same problem (same bits expected: same library code, same inputs)
-template <class tsequence>
-solver_state_t mirror_loop(const std::string& sid, const std::string& sname, const sharp_function_t& function, const vector_t& x0,
-                           const solver_t& solver, const config_t& c, vh::rng_t& r, bool& guarded)
-{
-    const auto prefix    = std::string("solver::") + sname;
-    const auto max_evals = static_cast<tensor_size_t>(c.max_evals);
-    const auto epsilon   = c.eps;
-    const auto logger    = make_null_logger();
-    const bool is_rqb    = sname == "rqb";
-
-    auto state     = solver_state_t{function, x0};
-    auto bundle    = bundle_t::make(state, solver, prefix);
-    auto csearch   = csearch_t::make(function, solver, prefix);
-    auto proximity = proximity_t::make(state, solver, prefix);
-    print_new(sid, bundle, c.max_size, state);
-
-    auto Gn  = state.gx();
-    auto Gn1 = state.gx();
-    auto gx       = vector_t{x0.size()};
-    auto sequence = tsequence{state};
-    struct probe_t final : public solver_t
-    {
-        probe_t() : solver_t("probe") {}
-        using solver_t::done;
-        rsolver_t      clone() const override { return std::make_unique<probe_t>(*this); }
-        solver_state_t do_minimize(const function_t&, const vector_t&, const logger_t&) const override { return {}; }
-    } probe;
-
-    guarded = false;
-    while (function.fcalls() + function.gcalls() < max_evals)
-    {
-        const auto& [t, status, y, gy, fy] = csearch.search(bundle, proximity.miu(), max_evals, epsilon, logger);
-        print_solve(sid, bundle, proximity.miu() / t);
-        print_conv(sid, bundle, epsilon);
-        oracle_certificate(sid, bundle, function, epsilon);
-
-        const auto iter_ok   = status != csearch_status::failed;
-        const auto converged = status == csearch_status::converged;
-        std::printf("CS %s %d %d %d\n", is_rqb ? "rqb" : "fpba", static_cast<int>(status), iter_ok ? 1 : 0, converged ? 1 : 0);
-        if (probe.done(state, iter_ok, converged, logger)) break;
-
-        if (status == csearch_status::descent_step || status == csearch_status::cutting_plane_step)
-        {
-            if (is_rqb)
-            {
-                if (status == csearch_status::descent_step)
-                {
-                    Gn1 = bundle.smeared_s();
-                    proximity.update(t, bundle.x(), y, bundle.gx(), gy, Gn, Gn1);
-                    Gn = Gn1;
-                }
-                else
-                {
-                    Gn = bundle.smeared_s();
-                }
-                if (!apply_append(sid, bundle, true, y, gy, fy)) { guarded = true; break; }
-                state.update(y, gy, fy);
-            }
-            else
-            {
-                if (status == csearch_status::descent_step) proximity.update(t, bundle.x(), y, bundle.gx(), gy);
-                state.update_if_better(y, gy, fy);
-                const auto& x  = sequence.update(y);
-                const auto  fx = function.vgrad(x, gx);
-                if (!apply_append(sid, bundle, true, x, gx, fx)) { guarded = true; break; }
-                if (!state.update_if_better(x, gx, fx)) sequence.reset();
-            }
-        }
-        else if (status == csearch_status::null_step)
-        {
-            if (!apply_append(sid, bundle, false, y, gy, fy)) { guarded = true; break; }
-        }
-        ++C.mirror_ops;
-        if (C.mirror_ops % 4 == 0) oracle_rows(sid, bundle, function, make_probes(r, function, bundle, nullptr));
-    }
-    state.update_calls();
-    return state;
-}
-
-void mirror_run(uint64_t case_seed, bool small)
-{
-    vh::rng_t         r(case_seed);
-    const std::string sid = "M" + std::to_string(case_seed);
-    static const char* solvers[] = {"rqb", "fpba1", "fpba2"};
-    const std::string  sname = solvers[r.range(0, 2)];
-    auto               p     = make_problem(r);
-    auto               c     = draw_config(r, sname, small);
-    c.max_evals              = std::min(c.max_evals, 3000); // keeps the dump small
-    auto solver              = make_solver(c);
-    // the real solver first
-    g_events.clear();
-    p.f->m_evals   = 0;
-    const auto ref = solver->minimize(*p.f, p.x0, make_null_logger());
-    // the mirror (events of the probe's done() are not those of the solver)
-    verif::g_event_hook.store(nullptr);
-    p.f->clear_statistics();
-    bool           guarded = false;
-    solver_state_t mir;
-    if (sname == "rqb") mir = mirror_loop<nesterov_sequence1_t>(sid, sname, *p.f, p.x0, *solver, c, r, guarded);
-    else if (sname == "fpba1") mir = mirror_loop<nesterov_sequence1_t>(sid, sname, *p.f, p.x0, *solver, c, r, guarded);
-    else mir = mirror_loop<nesterov_sequence2_t>(sid, sname, *p.f, p.x0, *solver, c, r, guarded);
-    verif::g_event_hook.store(&event_hook);
-    std::printf("B %s END\n", sid.c_str());
-    ++C.mirrors;
-    C.hist["mirror_solver=" + sname]++;
-    if (!guarded)
-    {
-        const bool same = ref.status() == mir.status() && ref.fx() == mir.fx() &&
-                          ref.fcalls() == mir.fcalls() && hv(ref.x()) == hv(mir.x());
-        if (!same)
-        {
-            std::printf("MIRROR-DIFF %s solver=%s real: status=%d fx=%s calls=%d x=%s | mirror: status=%d fx=%s calls=%d x=%s\n", sid.c_str(), sname.c_str(),
-                        static_cast<int>(ref.status()), vh::hexf(ref.fx()).c_str(), static_cast<int>(ref.fcalls()), hv(ref.x()).c_str(),
-                        static_cast<int>(mir.status()), vh::hexf(mir.fx()).c_str(), static_cast<int>(mir.fcalls()), hv(mir.x()).c_str());
-        }
-    }
-    // the property on the real run
-    const double gap   = ref.fx() - p.f->fstar();
-    const double dist  = norm2(p.f->m_xs, ref.x());
-    const double bound = 2.0 * c.eps * std::sqrt(static_cast<double>(p.n)) * (1.0 + dist);
-    if (ref.status() == solver_status::converged && !(gap <= bound))
-    {
-        std::printf("FAIL %s converged-not-optimal solver=%s gap=%.6e bound=%.6e dist=%.6e n=%d kind=%s %s\n", sid.c_str(), sname.c_str(), gap, bound, dist,
-                    p.n, kind_name(p.kind, p.mu), config_str(c).c_str());
-        ++C.fails;
-    }
-}
-
 // Part D: the 1-D branch of the ellipsoid method, evaluation trace for the model
 void ell1_run(uint64_t case_seed)
 {
@@ -795,7 +803,7 @@ void ell1_run(uint64_t case_seed)
     default: c.R = d0 + static_cast<double>(r.range(1, 64)) / 8.0; break;
     }
     if (c.R < d0) c.R = d0 * 2.0;
-    if (r.range(0, 2) == 0) c.max_evals = static_cast<int>(r.range(4, 120));
+    if (r.range(0, 2) == 0) c.max_evals = static_cast<int>(r.range(10, 120));
     auto solver = make_solver(c);
     p.f->m_record = true;
     p.f->m_trace.clear();
@@ -837,22 +845,23 @@ int main(int argc, char** argv)
         const uint64_t    cs    = std::strtoull(argv[3], nullptr, 10);
         const bool        small = argc > 4 && std::string(argv[4]) == "small";
         if (what == "S") session(cs, small);
-        else if (what == "M") mirror_run(cs, small);
-        else if (what == "R") solver_run(cs, small);
+        else if (what == "M") solver_run(cs, small, true);
+        else if (what == "R") solver_run(cs, small, false);
         else if (what == "E") ell1_run(cs);
         std::printf("DONE replay fails=%d guards=%d\n", static_cast<int>(C.fails), static_cast<int>(C.guards));
         return 0;
     }
     const bool small    = argc > 2 && std::string(argv[2]) == "small";
     const bool thorough = mode == "thorough";
-    vh::rng_t  master(vh::env_seed() * 0x9E3779B97F4A7C15ULL + 0xC03);
+    vh::rng_t  pre(vh::env_seed() ^ 0xC03C03C03C03ULL); // NB: seeding by seed * (splitmix increment) would only shift the stream
+    vh::rng_t  master(pre.next() ^ (pre.next() << 1));
     const int  nsessions = thorough ? 1500 : 120;
     const int  nmirrors  = thorough ? 400 : 40;
     const int  nruns     = thorough ? 6000 : 400;
     const int  ne1       = thorough ? 1500 : 150;
     for (int i = 0; i < nsessions; ++i) session(master.next() >> 16, small);
-    for (int i = 0; i < nmirrors; ++i) mirror_run(master.next() >> 16, small);
-    for (int i = 0; i < nruns; ++i) solver_run(master.next() >> 16, small);
+    for (int i = 0; i < nmirrors; ++i) solver_run(master.next() >> 16, small, true);
+    for (int i = 0; i < nruns; ++i) solver_run(master.next() >> 16, small, false);
     for (int i = 0; i < ne1; ++i) ell1_run(master.next() >> 16);
     std::string h;
     for (const auto& kv : C.hist) h += " " + kv.first + ":" + std::to_string(kv.second);
